@@ -129,13 +129,16 @@ def rest(ctx: Ctx) -> None:
     ctx.check(len(r) == 1 and astq.linear_cmp(r[0].value) == ({"self.index0": 1}, "=="), "form:first", "runtime:LoopContext.first", "first", "loop.first must be index0 == 0", lc.loc(fn))
     for cls in (lc, ac):
         fn = cls.methods["length"]
-        asg = [n for n in ast.walk(fn) if isinstance(n, ast.Assign) and ast.unparse(n.targets[0]) == "self._length" and "len(iterable)" in ast.unparse(n.value)]
+        # the local holding the drained items (whatever it is called)
+        drains = [n for n in ast.walk(fn) if isinstance(n, ast.Assign) and isinstance(n.targets[0], ast.Name) and ast.unparse(n.value) in ("list(self._iterator)", f"[{'x'} async for x in self._iterator]") or (isinstance(n, ast.Assign) and isinstance(n.targets[0], ast.Name) and isinstance(n.value, ast.ListComp) and "self._iterator" in ast.unparse(n.value.generators[0].iter) and ast.unparse(n.value.elt) == ast.unparse(n.value.generators[0].target))]
+        dv = drains[0].targets[0].id if len(drains) == 1 else "iterable"  # type: ignore[attr-defined]
+        asg = [n for n in ast.walk(fn) if isinstance(n, ast.Assign) and ast.unparse(n.targets[0]) == "self._length" and f"len({dv})" in ast.unparse(n.value)]
         got = astq.linear(asg[0].value) if len(asg) == 1 else None
-        want = {"len(iterable)": 1, "self.index": 1, "self._after is not missing": 1}
+        want = {f"len({dv})": 1, "self.index": 1, "self._after is not missing": 1}
         ctx.check(got == want, f"form:length:{cls.name}", f"runtime:{cls.name}.length", "length of an unsized iterable",
                   f"{cls.name}.length computes `{ast.unparse(asg[0].value) if asg else ''}` for unsized iterables; it must count the remaining items, the items consumed so far (index) and a buffered look-ahead item", cls.loc(fn), detail={"normal_form": got})
         s = ast.unparse(fn)
-        ctx.check("self._length = len(self._iterable)" in s and "except TypeError" in s and "self._iterator = self._to_iterator(iterable)" in s, f"length:shape:{cls.name}", f"runtime:{cls.name}.length", "sized first, then drain and re-wrap",
+        ctx.check("self._length = len(self._iterable)" in s and "except TypeError" in s and f"self._iterator = self._to_iterator({dv})" in s, f"length:shape:{cls.name}", f"runtime:{cls.name}.length", "sized first, then drain and re-wrap",
                   "length must use len() when available, otherwise drain the iterator into a list and keep iterating over that list", cls.loc(fn))
     cy = lc.methods["cycle"]
     r = astq.returns(cy)
@@ -150,15 +153,31 @@ def rest(ctx: Ctx) -> None:
         ctx.check(readers <= {"length", "_peek_next", nxt}, f"{cls.name}:readers", f"runtime:{cls.name}", f"iterator read in {sorted(readers - {'length', '_peek_next', nxt})}", f"{cls.name} reads the iterator outside length/_peek_next/{nxt}: querying a loop attribute would consume items", cls.loc())
         fn = cls.methods[nxt]
         body = [s_ for s_ in fn.body if not (isinstance(s_, ast.Expr) and isinstance(s_.value, ast.Constant))]
-        ok = len(body) == 5 and isinstance(body[0], ast.If) and ast.unparse(body[0].test) == "self._after is not missing" \
-            and [ast.unparse(x) for x in body[0].body] == ["rv = self._after", "self._after = missing"] \
-            and [ast.unparse(x) for x in body[1:]] == ["self.index0 += 1", "self._before = self._current", "self._current = rv", "return (rv, self)"]
+        # facts, independent of how the branches are written and what the local is called
+        rets_ = astq.returns(fn)
+        item = None
+        if len(rets_) == 1 and isinstance(rets_[0].value, ast.Tuple) and len(rets_[0].value.elts) == 2 and ast.unparse(rets_[0].value.elts[1]) == "self" and isinstance(rets_[0].value.elts[0], ast.Name):
+            item = rets_[0].value.elts[0].id
+        ok = item is not None and not astq.guard_atoms(fn, rets_[0])
+        why = "returns (item, self) on every path" if ok else "must return (item, self) unconditionally"
+        if ok:
+            srcs = {ast.unparse(a.value).replace("await ", ""): (a, astq.guard_atoms(fn, a)) for a in ast.walk(fn) if isinstance(a, ast.Assign) and ast.unparse(a.targets[0]) == item}
+            pull = "next(self._iterator)" if nxt == "__next__" else "self._iterator.__anext__()"
+            ok = set(srcs) == {"self._after", pull} and srcs["self._after"][1] == [("self._after is missing", False)] and srcs[pull][1] == [("self._after is missing", True)]
+            why = f"item sources {sorted(srcs)} with guards {[g for _, g in srcs.values()]}"
+            clears = [a for a in ast.walk(fn) if isinstance(a, ast.Assign) and ast.unparse(a) == "self._after = missing"]
+            ok = ok and len(clears) == 1 and astq.guard_atoms(fn, clears[0]) == [("self._after is missing", False)]
+            incs_ = [a for a in ast.walk(fn) if isinstance(a, ast.AugAssign) and ast.unparse(a.target) == "self.index0"]
+            ok = ok and len(incs_) == 1 and isinstance(incs_[0].op, ast.Add) and ast.unparse(incs_[0].value) == "1" and not astq.guard_atoms(fn, incs_[0])
+            shift = [a for a in ast.walk(fn) if isinstance(a, ast.Assign) and ast.unparse(a) in ("self._before = self._current", f"self._current = {item}")]
+            ok = ok and [ast.unparse(a) for a in sorted(shift, key=lambda a: a.lineno)] == ["self._before = self._current", f"self._current = {item}"] and not any(astq.guard_atoms(fn, a) for a in shift)
         ctx.check(ok, f"{cls.name}.{nxt}:protocol", f"runtime:{cls.name}.{nxt}", "advance protocol",
-                  f"{cls.name}.{nxt} must: use and clear the buffered look-ahead item if present, else pull from the iterator; then index0 += 1; _before = _current; _current = item; return (item, self)", cls.loc(fn),
+                  f"{cls.name}.{nxt} must: use and clear the buffered look-ahead item if present, else pull from the iterator; then index0 += 1; _before = _current; _current = item; return (item, self) [{why}]", cls.loc(fn),
                   detail={"statements": [ast.unparse(x)[:60] for x in body]})
         pk = cls.methods["_peek_next"]
-        s = ast.unparse(pk)
-        ctx.check("if self._after is not missing:\n        return self._after" in s, f"{cls.name}._peek_next:cache", f"runtime:{cls.name}._peek_next", "cached look-ahead", "_peek_next must return the cached look-ahead item without touching the iterator again", cls.loc(pk))
+        reads = [a for a in ast.walk(pk) if isinstance(a, ast.Attribute) and a.attr == "_iterator" and isinstance(a.ctx, ast.Load)]
+        cached = bool(reads) and all(("self._after is missing", True) in astq.guard_atoms(pk, r_) for r_ in reads) and all(ast.unparse(r_.value) == "self._after" for r_ in astq.returns(pk))
+        ctx.check(cached, f"{cls.name}._peek_next:cache", f"runtime:{cls.name}._peek_next", "cached look-ahead", "_peek_next must return the cached look-ahead item without touching the iterator again (the iterator is read only while self._after is missing; every return is self._after)", cls.loc(pk))
     pv = lc.methods["previtem"]
     s = ast.unparse(pv)
     ctx.check("if self.first:" in s and "return self._before" in s, "previtem", "runtime:LoopContext.previtem", "previtem", "previtem must be undefined on the first iteration and _before afterwards", lc.loc(pv))
